@@ -16,6 +16,8 @@ use nom::IResult;
 pub(crate) use expression::parse_expression;
 pub(crate) use instruction::parse_instructions;
 pub(crate) use lexer::lex;
+#[cfg(rigetti_quil_rs_verif)]
+pub(crate) use lexer::verif_unescaped_quoted_string;
 
 mod command;
 mod gate;
